@@ -18,8 +18,8 @@ class StaticDynamicSpec(c07.ModuleSpec):
     prop = 'C16'
     title = 'static vs dynamic collection of the same generated module'
 
-    def __init__(self, name, max_len, max_cost, min_len=1):
-        c07.ModuleSpec.__init__(self, name, max_len, max_cost, min_len)
+    def __init__(self, name, max_len, max_cost, min_len=1, blocks=False):
+        c07.ModuleSpec.__init__(self, name, max_len, max_cost, min_len, blocks=blocks)
         self.rule = self.rule.replace('collected under the 3 styles', 'collected statically and dynamically under the 3 styles')
 
     def run_case(self, hist):
@@ -72,5 +72,7 @@ class StaticDynamicSpec(c07.ModuleSpec):
 
 def specs(tier):
     if tier == 'thorough':
-        return [StaticDynamicSpec('modules<=2', 2, 99), StaticDynamicSpec('modules=3', 3, 3, min_len=3)]
-    return [StaticDynamicSpec('modules<=2', 2, 99), StaticDynamicSpec('modules=3', 3, 2, min_len=3)]
+        return [StaticDynamicSpec('modules<=2', 2, 99), StaticDynamicSpec('modules=3', 3, 3, min_len=3),
+                StaticDynamicSpec('blocks<=3', 3, 99, blocks=True)]
+    return [StaticDynamicSpec('modules<=2', 2, 99), StaticDynamicSpec('modules=3', 3, 2, min_len=3),
+            StaticDynamicSpec('blocks<=2', 2, 99, blocks=True)]
